@@ -232,6 +232,9 @@ def expected_fields(t, spec, flavour, tol=None, noise=2e-3):
             # encoding error may be floored or not - such glyphs get the lenient clause
             if tol is not None and tol < 0.5 and b is not None and any(abs(v - round(v)) < noise for v in b):
                 NOISY.add(n)
+            # an extremum that lies on a rounding boundary up to floating-point error (685.4999999999998 here, 685.5 in fontTools' solver) may round either way
+            if b is not None and any(abs((v % 1) - 0.5) < 1e-6 for v in b):
+                NOISY.add(n)
     return order, boxes, exact
 
 
